@@ -31,6 +31,7 @@ func init() {
 		Title:       "Boolean path operations compute the set algebra of the filled regions",
 		Explanation: "Decides the finite tables of the boolean operations for every input that reaches them: each public wrapper passes the op constant of its name, its own operands and NonZero; SweepPoint.InResult's per-op membership expressions equal the property's truth table over (subject fills, clipping fills) on each side of an edge and an edge is kept iff filling changes; the pathOp switch is exhaustive; bentleyOttmann's four early-outs (Q empty, P empty, disjoint sub-path of P, of Q) keep an operand exactly for the ops whose truth table keeps it. NOT decided: the sweep itself, snap rounding, overlap merging, contour tracing, termination, area laws.",
 		Run: func(c *core.Ctx, r *core.Report) {
+			E9SquareRangeBothEnds(c, r)
 			E9MovedNodeHeight(c, r)
 			E9Fills(c, r)
 			E4InsertAlias(c, r, []string{""})
@@ -57,6 +58,7 @@ func init() {
 		Title:       "Settle preserves the filled region and returns a canonical simple path",
 		Explanation: "Decides: FillRule.Fills is definite on the sign×parity classes of the winding number and equals each rule's definition, with a case for all four rules; the Settle entry points pass nil, opSettle and their own fill rule to the sweep; opSettle membership is the subject's own fill on each side; settling an empty path yields the empty path. NOT decided: canonical form, hole orientation, idempotence, the sweep.",
 		Run: func(c *core.Ctx, r *core.Report) {
+			E9SquareRangeBothEnds(c, r)
 			E9MovedNodeHeight(c, r)
 			E11StickyFlag(c, r)
 			E9CopyDropsStatusNode(c, r)
@@ -283,6 +285,7 @@ func init() {
 		Explanation: "Decides, for every path and argument: (1) every exported method of *Path/Paths other than the documented in-place mutators/sinks (each re-justified by its doc phrase) writes no memory reachable from its receiver or arguments — interprocedural effect analysis on SSA; the copy-on-write latch of replace is verified structurally; (2) the command encoding discipline: cmdLen vs the format, payload offsets inside the decoded record, every record built/retagged with the command at both ends; Split hands out capacity-limited sub-slices; (3) no in-place transform accumulates over loop iterations, no loop state variable is stuck at its initial constant. (4) since batch 12: every explicit panic reachable from Settle/And/Or/Xor/Not/DivideBy is a reviewed precondition or data-structure guard, or a known finding with a failing input; the sweep's work-list loop is reported for having no explicit bound (known finding: an operand pair on which Or does not return). NOT decided: 'no zero-length segments', the geometry the builders trace, implicit run-time panics other than those named, termination of anything but that loop.",
 		Assumptions: []string{"standard-library functions not in the mutator table are pure (listed in coverage.external_assumed)", "results of calls through function-typed parameters are fresh objects", "one reviewed call edge: Dash -> Join (reason in the checker's exception table)"},
 		Run: func(c *core.Ctx, r *core.Report) {
+			E9SquareRangeBothEnds(c, r)
 			E11QuadLineTestMirror(c, r)
 			E11StaleAfterBuilder(c, r)
 			E11JoinCoincidence(c, r)
